@@ -198,20 +198,20 @@ func makeAccumulatorFunc(expr parser.ItemType) (newAccumulatorFunc, error) {
 		}, nil
 	case "avg":
 		return func() *accumulator {
-			var count, sum float64
+			var count, mean float64
 			var hasValue bool
 
 			return &accumulator{
 				AddFunc: func(v float64) {
 					hasValue = true
 					count += 1
-					sum += v
+					mean = addToMean(mean, count, v)
 				},
-				ValueFunc: func() float64 { return sum / count },
+				ValueFunc: func() float64 { return mean },
 				HasValue:  func() bool { return hasValue },
 				Reset: func(_ float64) {
 					hasValue = false
-					sum = 0
+					mean = 0
 					count = 0
 				},
 			}
